@@ -4,5 +4,5 @@ CONSTANTS
   DUP = FALSE
   SFlaws <- SFlawsDef
 SPECIFICATION Spec
-INVARIANT RepeatFound
-INVARIANT GrammarSound
+INVARIANT SwapInvariant
+INVARIANT GroupSwapInvariant
